@@ -1,9 +1,9 @@
 package main
 
 import (
-	"go/types"
 	"fmt"
 	"go/token"
+	"go/types"
 	"strings"
 
 	"golang.org/x/tools/go/ssa"
@@ -728,16 +728,16 @@ type absV struct {
 }
 
 type sseSim struct {
-	c        *Ctx
-	r        *Report
-	viol     map[string]string // key → message
-	violPos  map[string]token.Pos
-	emits    int
-	steps    int
+	c         *Ctx
+	r         *Report
+	viol      map[string]string // key → message
+	violPos   map[string]token.Pos
+	emits     int
+	steps     int
 	undecided []string
-	lineFn   *ssa.Function
-	syncFn   *ssa.Function
-	lineMemo map[sseG]map[sseG]bool
+	lineFn    *ssa.Function
+	syncFn    *ssa.Function
+	lineMemo  map[sseG]map[sseG]bool
 	// the two fields of the stream state the simulation models, found by what they are used for (not by name):
 	// the bool set to true where message_start is emitted, and the pointer to the currently open content block
 	startedField, blockField *types.Var
